@@ -18,6 +18,7 @@ import Wbxml.Lemmas.ParseSerHeader
 import Wbxml.Lemmas.ParseSerElem
 import Wbxml.Lemmas.ParseSerTyped
 import Wbxml.Gen.Tables
+import Wbxml.Props.Consts
 set_option maxRecDepth 100000
 namespace Wbxml.Props.C04
 open Wbxml Wbxml.Model Wbxml.Spec Wbxml.Lemmas.ParseSer
